@@ -210,6 +210,10 @@ def _create_task_emits(c, ctx, self, coro):
 Task = TRef()
 ALoop.methods["create_task"] = amethod("loop.create_task", {"self": ALoop, "coro": None}, doc="create_task(coro): coro runs as a task on the loop thread",
                                        result=Task, fresh_result=True, emits=_create_task_emits, has_events=True)
+ALoop.methods["set_task_factory"] = amethod(
+    "loop.set_task_factory", {"self": ALoop, "factory": None},
+    doc="the contract assumed of create_task (the coroutine starts at a LATER loop iteration, never inside the caller's step) is the default task factory's",
+    requires=lambda c, self, factory: {"the-default-task-factory-whose-tasks-start-at-a-later-loop-iteration": True if factory is None else Z.is_none(factory.t if hasattr(factory, "t") else c.ctx.to_val(factory).t)})
 ALoop.methods["create_future"] = amethod("loop.create_future", {"self": ALoop}, result=Future, fresh_result=True,
                                          ensures=lambda c, self, result: c.Not(flag(result, "is_done")))
 
@@ -244,7 +248,9 @@ Nursery.fields["cancel_scope"] = CancelScope
 RChan = TAbs("trio.ReceiveChannel", fields=dict(peer=TAny()), events=False)
 ALoop.methods["run_in_executor"] = amethod(
     "loop.run_in_executor", {"self": ALoop, "executor": None, "fn": None},
-    doc="run_in_executor(None, f): f() runs on a thread that is not the loop thread; awaiting yields f's outcome")
+    doc="run_in_executor(None, f): f() runs on a thread that is not the loop thread; awaiting yields f's outcome",
+    # the closing guarantee assumed of asyncio.run (it joins the executor threads before returning) is the DEFAULT executor's only
+    requires=lambda c, self, executor, fn: {"the-default-executor-which-asyncio.run-joins-on-shutdown": True if executor is None else Z.is_none(executor.t if hasattr(executor, "t") else c.ctx.to_val(executor).t)})
 
 
 def _rie_delegate(I, self, executor, fn):
@@ -270,6 +276,9 @@ ATask.methods["done"] = amethod("Task.done", {"self": ATask}, result=BOOL, ensur
 ATask.methods["cancelled"] = amethod("Task.cancelled", {"self": ATask}, result=BOOL)
 ATask.methods["exception"] = amethod("Task.exception", {"self": ATask}, result=ANYT, requires=lambda c, self: {"task-is-done": flag(self, "task_done")},
                                      emits=lambda c, ctx, self: ctx.emit("task.exception", self), has_events=True)
+ATask.methods["result"] = amethod("Task.result", {"self": ATask}, result=ANYT, requires=lambda c, self: {"task-is-done": flag(self, "task_done")},
+                                  doc="Task.result(): the payload's return value, or RE-RAISES the exception the payload ended with (any BaseException)",
+                                  raises={"BaseException": lambda c, self, exc: True}, emits=lambda c, ctx, self: ctx.emit("task.result", self), has_events=True)
 ATask.methods["cancel"] = amethod("Task.cancel", {"self": ATask}, result=BOOL, emits=lambda c, ctx, self: ctx.emit("task.cancel", self), has_events=True)
 
 
